@@ -1021,7 +1021,7 @@ PROPS["C11"] = dict(
     level_note="Trusted: Coq kernel; model validated by this run's correspondence. Scope note: a module path that is also an item path (a directory and a type sharing a name) is outside the theorem's hypothesis.",
 )
 
-INHERIT_PROFILE = dict(FUNC_PROFILE, p_base=0.75, p_vftable=0.6, types=(2, 6), vfuncs=(0, 4), p_impl=0.7, impl_fns=(0, 3),
+INHERIT_PROFILE = dict(FUNC_PROFILE, miss=0.1, p_slot_mut=0.35, p_base=0.75, p_vftable=0.6, types=(2, 6), vfuncs=(0, 4), p_impl=0.7, impl_fns=(0, 3),
                        fields=(0, 2), p_index=0.3, modules=(1, 2))
 
 PROPS["C04"] = dict(
@@ -1317,6 +1317,29 @@ def match_finding(findings, pid, fail):
 # runner
 
 
+# which properties a near-miss of the generator belongs to: accepting it violates them
+MISS_PROPS = {
+    "overlap by one": ["C01", "C02"], "address off alignment by one": ["C01", "C02"], "size one too small": ["C02"],
+    "alignment not a power of two": ["C02", "C13"], "packed and align": ["C02"],
+    "vfunc index below position": ["C04"], "vftable size below slots": ["C04"],
+    "impl function without address": ["C05"], "extern value without address": ["C15"], "extern type without align": ["C02"],
+    "defaultable without default": ["C08"], "default without defaultable": ["C08"], "two defaults": ["C08"],
+    "derived vftable omits the last base slot": ["C06"],
+    "derived vftable slot differs from the base's: name": ["C06"], "derived vftable slot differs from the base's: receiver": ["C06"],
+    "derived vftable slot differs from the base's: cc": ["C06", "C16"], "derived vftable slot differs from the base's: ret": ["C06"],
+    "derived vftable slot differs from the base's: arg_count": ["C06"], "derived vftable slot differs from the base's: arg_type": ["C06"],
+}
+
+
+def mon_near_miss(pid, res):
+    exp = res.case.get("exp")
+    if not exp or not exp.get("miss") or res.hv[0] != "ok":
+        return []
+    if pid in MISS_PROPS.get(exp["miss"], []):
+        return [dict(clause="%s.accepted_near_miss" % pid, detail="the description violates the property's acceptance condition (%s) but was accepted" % exp["miss"])]
+    return []
+
+
 def gen_cases(pid, prop, n, seed):
     cases = []
     base = int(hashlib.sha256(("%s/%d" % (pid, seed)).encode()).hexdigest()[:12], 16)
@@ -1374,7 +1397,7 @@ def run_property(pid, prop, tier, seed, scratch, replay=None):
             else:
                 other_aspect_diffs[asp] += 1
         in_kf_class = bool(kf_filter and kf_filter(r.case))
-        for mon in prop.get("monitors", []):
+        for mon in prop.get("monitors", []) + [lambda r_, pid_=pid: mon_near_miss(pid_, r_)]:
             for f in mon(r):
                 f = dict(f)
                 f["case"] = summarise_case(r.case)
